@@ -191,4 +191,268 @@ theorem methodSelection_spec (b : Bytes) (hb : b.length = C07.scratchLen) (metho
     · have hn' : (¬method = m0 ∧ ¬method = m1 ∧ ¬method ∈ ms') := by simpa [not_or] using hm
       rw [if_neg hm, if_pos hn']; rfl
 
+theorem aux_idx (a b c d : UInt8) (xs : Bytes) (p : UInt8) (junk : Bytes) :
+    (a :: b :: c :: d :: (xs ++ p :: junk))[2 + (xs.length + 2)]? = some p := by
+  have e : 2 + (xs.length + 2) = xs.length + 1 + 1 + 1 + 1 := by omega
+  rw [e]; simp
+
+theorem aux_slice (a b c d : UInt8) (xs ys : Bytes) :
+    bslice (a :: b :: c :: d :: (xs ++ ys)) 2 (2 + (xs.length + 2)) = c :: d :: xs := by
+  have e : 2 + (xs.length + 2) = xs.length + 1 + 1 + 1 + 1 := by omega
+  rw [e]; simp [bslice]
+
+theorem aux_pw (a b : UInt8) (P ys : Bytes) :
+    bslice (a :: b :: (P ++ ys)) 2 (2 + P.length) = P := by
+  have e : 2 + P.length = P.length + 1 + 1 := by omega
+  rw [e]; simp [bslice]
+
+theorem userPass_spec (users : List (Bytes × Bytes)) (b : Bytes) (hb : b.length = C07.scratchLen)
+    (u0 : UInt8) (us P rest : Bytes) (hU : us.length + 1 ≤ 255) (hP1 : 1 ≤ P.length) (hP2 : P.length ≤ 255) (s : St)
+    (hs : s.inp.flatten = cAuthVersion :: u8 (us.length + 1) :: u0 :: (us ++ u8 P.length :: (P ++ rest))) :
+    ∃ inp', inp'.flatten = rest ∧
+      match lookupUser users (u0 :: us) with
+      | some (u, pw) =>
+        if P = pw then
+          ∃ b', userPass users b s = (.ok (u, b'), { s with inp := inp', out := s.out ++ [cAuthVersion, 0] }) ∧
+            b'.length = b.length
+        else userPass users b s = (.error .badCreds, { s with inp := inp', out := s.out ++ [cAuthVersion, 1] })
+      | none => userPass users b s = (.error .badCreds, { s with inp := inp', out := s.out ++ [cAuthVersion, 1] }) := by
+  have hb' : b.length = 262 := hb
+  have hn : (u8 (us.length + 1)).toNat = us.length + 1 := u8_toNat _ (by omega)
+  have hp : (u8 P.length).toNat = P.length := u8_toNat _ (by omega)
+  cases us with
+  | nil =>
+    have hf : (dropC 4 s.inp).flatten = P ++ rest := by rw [dropC_flatten, hs]; simp
+    refine ⟨dropC P.length (dropC 4 s.inp), by rw [dropC_flatten, hf]; simp, ?_⟩
+    unfold userPass
+    simp only [bind_def]
+    rw [need_of _ (by simp [hb'])]
+    simp only []
+    rw [readIntoM_eq _ _ _ _ (by simp [hs]) (by omega)]
+    simp only [hs]
+    have hPne : P ≠ [] := by intro h; simp [h] at hP1
+    have e : 2 + P.length = P.length + 1 + 1 := by omega
+    simp [bgetM, bwrite, u8_toNat, hp, hPne]
+    rw [readIntoM_eq _ _ _ _ (by simp [hf]) (by simp [hb']; omega)]
+    have e2 : List.take (P.length + 1 + 1) (cAuthVersion :: u8 1 :: (P ++ List.drop (2 + P.length)
+        (cAuthVersion :: u8 1 :: u0 :: u8 P.length :: List.drop 4 b))) = cAuthVersion :: u8 1 :: P := by
+      simp
+    cases hl : lookupUser users [u0] with
+    | none => simp [hf, bslice, bwrite, bset, e, hl]
+    | some up =>
+      obtain ⟨u, pw⟩ := up
+      by_cases hpw : P = pw
+      · subst hpw; simp [hf, bslice, bwrite, bset, e, hl, hb']; omega
+      · simp [hf, bslice, bwrite, bset, e, hl, hpw]
+  | cons u1 us' =>
+    simp at hU
+    have h2 : (u8 (us'.length + 1 + 1)).toNat = us'.length + 2 := by simpa using hn
+    have hf1 : (dropC 4 s.inp).flatten = (us' ++ [u8 P.length]) ++ (P ++ rest) := by rw [dropC_flatten, hs]; simp
+    have hf2 : (dropC (us'.length + 1) (dropC 4 s.inp)).flatten = P ++ rest := by
+      rw [dropC_flatten, hf1]; simp
+    refine ⟨dropC P.length (dropC (us'.length + 1) (dropC 4 s.inp)), by rw [dropC_flatten, hf2]; simp, ?_⟩
+    unfold userPass
+    simp only [bind_def]
+    rw [need_of _ (by simp [hb'])]
+    simp only []
+    rw [readIntoM_eq _ _ _ _ (by simp [hs]) (by omega)]
+    simp only [hs]
+    have hPne : P ≠ [] := by intro h; simp [h] at hP1
+    have e : 2 + P.length = P.length + 1 + 1 := by omega
+    simp [bgetM, bwrite, h2]
+    rw [readIntoM_eq _ _ _ _ (by simp [hf1]) (by simp [hb']; omega)]
+    have T : List.take (us'.length + 1) (us' ++ u8 P.length :: (P ++ rest)) = us' ++ [u8 P.length] := by
+      rw [show us' ++ u8 P.length :: (P ++ rest) = (us' ++ [u8 P.length]) ++ (P ++ rest) by simp]
+      exact List.take_left' (by simp)
+    simp only [hf1, bwrite]
+    simp only [List.take_zero, List.nil_append, List.append_assoc, List.cons_append, T, List.length_append,
+      List.length_cons, List.length_nil, Nat.zero_add, List.take_succ_cons]
+    have hjl : (List.drop (4 + (us'.length + 1))
+        (cAuthVersion :: u8 (us'.length + 1 + 1) :: u0 :: u1 :: List.drop 4 b)).length = 257 - us'.length := by
+      simp [hb']; omega
+    generalize List.drop (4 + (us'.length + 1)) _ = junk at hjl ⊢
+    simp only [aux_idx, aux_slice, hp]
+    have hP0 : ¬ P.length = 0 := by omega
+    simp only [hP0, if_false, bind_def]
+    rw [readIntoM_eq _ _ _ _ (by simp [hf2]) (by simp [hjl]; omega)]
+    simp only [hf2, List.take_left' rfl, bwrite, List.take_succ_cons, List.take_zero, List.cons_append, List.nil_append, aux_pw]
+    cases hl : lookupUser users (u0 :: u1 :: us') with
+    | none => simp [bslice, bset]
+    | some up =>
+      obtain ⟨u, pw⟩ := up
+      by_cases hpw : P = pw
+      · subst hpw; simp [bslice, bset, hjl]; omega
+      · simp [bslice, bset, hpw]
+
+/-- the plain wire form of an address (no IPv4-mapped conversion) -/
+def wireEnc : Addr → Bytes
+  | .v4 ip p => atypV4 :: (ip ++ be16 p)
+  | .v6 ip p => atypV6 :: (ip ++ be16 p)
+  | .dom n p => atypDom :: u8 n.length :: (n ++ be16 p)
+  | .zero => []
+
+theorem rd16_be16 (p : Nat) (h : p < 65536) : rd16 (u8 (p / 256)) (u8 (p % 256)) = p := by
+  simp [rd16, u8_toNat _ (show p / 256 < 256 by omega), u8_toNat _ (show p % 256 < 256 by omega)]
+  omega
+
+theorem atyp_ne1 : atypV4 ≠ atypDom := by decide
+theorem atyp_ne2 : atypV6 ≠ atypDom := by decide
+theorem atyp_ne3 : atypV6 ≠ atypV4 := by decide
+
+theorem encodeAddr_norm (a : Addr) (h : a.wf = true) : encodeAddr a = wireEnc a.norm := by
+  cases a with
+  | zero => simp [encodeAddr, Addr.norm, wireEnc, encodeIPPort]
+  | v4 ip p => simp [encodeAddr, Addr.norm, wireEnc, encodeIPPort]
+  | dom n p => simp [encodeAddr, Addr.norm, wireEnc]
+  | v6 ip p =>
+    by_cases hm : is4in6 ip = true <;> simp [encodeAddr, Addr.norm, encodeIPPort, hm, wireEnc]
+
+theorem norm_wf (a : Addr) (h : a.wf = true) : a.norm.wf = true ∧ a.norm ≠ .zero := by
+  cases a with
+  | zero => simp [Addr.norm, Addr.wf]
+  | v4 ip p => simpa [Addr.norm] using h
+  | dom n p => simpa [Addr.norm] using h
+  | v6 ip p =>
+    simp only [Addr.norm]
+    split
+    · simp [Addr.wf] at h ⊢; omega
+    · simpa using h
+
+theorem decode_wire (w : Addr) (hw : w.wf = true) (hz : w ≠ .zero) : decodeAddr (wireEnc w) = .ok w := by
+  cases w with
+  | zero => exact absurd rfl hz
+  | v4 ip p =>
+    simp [Addr.wf] at hw
+    obtain ⟨hl, hp⟩ := hw
+    match ip, hl with
+    | [a, b, c, d], _ =>
+      simp [wireEnc, decodeAddr, atyp_ne1, be16, rd16_be16 p hp]
+  | v6 ip p =>
+    simp [Addr.wf] at hw
+    obtain ⟨hl, hp⟩ := hw
+    match ip, hl with
+    | i0 :: ip', hl' =>
+      simp at hl'
+      simp [wireEnc, decodeAddr, atyp_ne2, atyp_ne3, be16, hl', rd16_be16 p hp]
+  | dom n p =>
+    simp [Addr.wf] at hw
+    obtain ⟨⟨h1, h2⟩, hp⟩ := hw
+    have hn : (u8 n.length).toNat = n.length := u8_toNat _ (by omega)
+    have h0 : ¬ n.length = 0 := by omega
+    simp [wireEnc, decodeAddr, be16, hn, rd16_be16 p hp, h0]
+
+theorem aux_slice35 (a b c t x : UInt8) (tail junk : Bytes) :
+    bslice (a :: b :: c :: t :: x :: (tail ++ junk)) 3 (5 + tail.length) = t :: x :: tail := by
+  have e : 5 + tail.length = tail.length + 1 + 1 + 1 + 1 + 1 := by omega
+  rw [e]; simp [bslice]
+
+def kSel (t x : UInt8) : M Nat :=
+  if t = atypDom then pure (x.toNat + 2)
+  else if t = atypV4 then pure 5
+  else if t = atypV6 then pure 17
+  else fail (.badAtyp t)
+
+theorem handleRequest_core (tcp udp : Bool) (loc : Bool × Bytes × Nat) (b : Bytes) (hb : b.length = C07.scratchLen)
+    (cmd rsv t x : UInt8) (tail : Bytes) (w : Addr) (hk2 : tail.length ≤ 257)
+    (hsel : kSel t x = pure tail.length)
+    (hdec : decodeAddr (t :: x :: tail) = .ok w) (rest : Bytes) (s : St)
+    (hs : s.inp.flatten = cVersion :: cmd :: rsv :: t :: x :: (tail ++ rest)) :
+    ∃ inp', inp'.flatten = rest ∧
+      (if cmd = cmdConnect ∧ tcp = true then
+        ∃ b', handleRequest tcp udp loc b s = (.ok (.pending w, b'), { s with inp := inp' }) ∧ b'.length = b.length
+      else if cmd = cmdUDP ∧ udp = true then
+        ∃ b', handleRequest tcp udp loc b s = (.ok (.udpDone w, b'),
+          { s with inp := inp', out := s.out ++ ([cVersion, repSucceeded, rsv] ++ encodeIPPort loc.1 loc.2.1 loc.2.2) })
+      else
+        ∃ b', handleRequest tcp udp loc b s = (.ok (.unsupported w cmd, b'),
+          { s with inp := inp', out := s.out ++ [cVersion, repCmdNotSupported, 0, atypV4, 0, 0, 0, 0, 0, 0] })) := by
+  have hb' : b.length = 262 := hb
+  have hf : (dropC 5 s.inp).flatten = tail ++ rest := by rw [dropC_flatten, hs]; simp
+  refine ⟨dropC tail.length (dropC 5 s.inp), by rw [dropC_flatten, hf]; simp, ?_⟩
+  unfold handleRequest readAddrTailM
+  simp only [bind_def]
+  rw [need_of _ (by simp [hb']; decide)]
+  simp only []
+  rw [readIntoM_eq _ _ _ _ (by simp [hs]) (by omega)]
+  simp only [hs]
+  simp [bgetM, bwrite]
+  have hsel' := hsel
+  unfold kSel at hsel'
+  rw [hsel']
+  simp only [pure_def]
+  rw [readIntoM_eq _ _ _ _ (by simp [hf]) (by simp [hb']; omega)]
+  simp only [hf, List.take_left' rfl, bwrite, List.take_succ_cons, List.take_zero, List.cons_append, List.nil_append]
+  have hjl : (List.drop (5 + tail.length) (cVersion :: cmd :: rsv :: t :: x :: List.drop 5 b)).length
+      = 257 - tail.length := by simp [hb']; omega
+  generalize List.drop (5 + tail.length) _ = junk at hjl ⊢
+  simp only [aux_slice35, hdec]
+  by_cases h1 : cmd = cmdConnect ∧ tcp = true
+  · simp [h1, hjl]; omega
+  · by_cases h2 : cmd = cmdUDP ∧ udp = true
+    · have hne : ¬ (cmdUDP = cmdConnect) := by decide
+      obtain ⟨h2a, h2b⟩ := h2
+      subst h2a
+      simp [hne, h2b, bslice, bset]
+    · simp [h1, h2, replyWithStatus, hjl]
+      rw [need_of _ (by simp [C07.IPv4AddrLen]; omega)]
+      simp [C07.IPv4AddrLen, List.replicate]
+
+theorem wire_shape (w : Addr) (hw : w.wf = true) (hz : w ≠ .zero) :
+    ∃ t x tail, wireEnc w = t :: x :: tail ∧ kSel t x = pure tail.length ∧ tail.length ≤ 257 := by
+  cases w with
+  | zero => exact absurd rfl hz
+  | v4 ip p =>
+    simp [Addr.wf] at hw
+    match ip, hw.1 with
+    | [a, b, c, d], _ =>
+      exact ⟨atypV4, a, [b, c, d] ++ be16 p, by simp [wireEnc], by simp [kSel, atyp_ne1, be16], by simp [be16]⟩
+  | v6 ip p =>
+    simp [Addr.wf] at hw
+    match ip, hw.1 with
+    | i0 :: ip', hl =>
+      simp at hl
+      exact ⟨atypV6, i0, ip' ++ be16 p, by simp [wireEnc], by simp [kSel, atyp_ne2, atyp_ne3, be16, hl],
+        by simp [be16, hl]⟩
+  | dom n p =>
+    simp [Addr.wf] at hw
+    have hn : (u8 n.length).toNat = n.length := u8_toNat _ (by omega)
+    exact ⟨atypDom, u8 n.length, n ++ be16 p, by simp [wireEnc], by simp [kSel, hn, be16], by simp [be16]; omega⟩
+
+theorem handleRequest_spec (tcp udp : Bool) (loc : Bool × Bytes × Nat) (b : Bytes) (hb : b.length = C07.scratchLen)
+    (cmd rsv : UInt8) (w : Addr) (hw : w.wf = true) (hz : w ≠ .zero) (rest : Bytes) (s : St)
+    (hs : s.inp.flatten = cVersion :: cmd :: rsv :: (wireEnc w ++ rest)) :
+    ∃ inp', inp'.flatten = rest ∧
+      (if cmd = cmdConnect ∧ tcp = true then
+        ∃ b', handleRequest tcp udp loc b s = (.ok (.pending w, b'), { s with inp := inp' }) ∧ b'.length = b.length
+      else if cmd = cmdUDP ∧ udp = true then
+        ∃ b', handleRequest tcp udp loc b s = (.ok (.udpDone w, b'),
+          { s with inp := inp', out := s.out ++ ([cVersion, repSucceeded, rsv] ++ encodeIPPort loc.1 loc.2.1 loc.2.2) })
+      else
+        ∃ b', handleRequest tcp udp loc b s = (.ok (.unsupported w cmd, b'),
+          { s with inp := inp', out := s.out ++ [cVersion, repCmdNotSupported, 0, atypV4, 0, 0, 0, 0, 0, 0] })) := by
+  obtain ⟨t, x, tail, hsh, hsel, hk⟩ := wire_shape w hw hz
+  have hdec : decodeAddr (t :: x :: tail) = .ok w := by rw [← hsh]; exact decode_wire w hw hz
+  exact handleRequest_core tcp udp loc b hb cmd rsv t x tail w hk hsel hdec rest s (by rw [hs, hsh]; simp)
+
+theorem kSel_cases (t x : UInt8) (k : Nat) (h : kSel t x = pure k) :
+    (t = atypDom ∧ k = x.toNat + 2) ∨ (t ≠ atypDom ∧ t = atypV4 ∧ k = 5) ∨
+    (t ≠ atypDom ∧ t ≠ atypV4 ∧ t = atypV6 ∧ k = 17) := by
+  have h0 := congrFun h ⟨[], [], []⟩
+  unfold kSel at h0
+  by_cases h1 : t = atypDom
+  · simp [h1] at h0; exact Or.inl ⟨h1, h0.symm⟩
+  · by_cases h2 : t = atypV4
+    · simp [h2, atyp_ne1] at h0; exact Or.inr (Or.inl ⟨h1, h2, h0.symm⟩)
+    · by_cases h3 : t = atypV6
+      · simp [h3, atyp_ne2, atyp_ne3] at h0; exact Or.inr (Or.inr ⟨h1, h2, h3, h0.symm⟩)
+      · simp [h1, h2, h3] at h0
+
+theorem lookupUser_mem (users : List (Bytes × Bytes)) (name u pw : Bytes) (h : lookupUser users name = some (u, pw)) :
+    u = name ∧ (u, pw) ∈ users := by
+  unfold lookupUser at h
+  have h1 := List.find?_some h
+  have h2 := List.mem_of_find?_eq_some h
+  simp at h1 h2
+  exact ⟨h1, h2⟩
+
 end SSV.HS
